@@ -23,6 +23,10 @@
     Exchange format of C19 (run_C19), mirrored by harness/c19.go:
       case = (0 ncols pk rows runSize removed)      sort one table, both outputs
            | (1 runSize pk (op ...))                 history; op = (0 row) AddRow | (1) Reset | (2) Close
+           | (2 runSize (use ...))                    ONE sorter reused: per use Reset, SetColumns (ncols
+                                                      columns), PK = pk, AddRow for every row, one output;
+                                                      use = (ncols pk rows out removed), out 0 = SortedBlocks,
+                                                      1 = SortedRows; finally Close
         ncols   leaf, number of columns given to SetColumns (0 = SetColumns not called)
         pk      node of leaves (column indices, in key order)
         rows    node of rows, a row = node of cells, a cell = node of byte leaves
@@ -37,6 +41,7 @@
         crow     = (0 cell ...) the row, or (1 keycell ...) when the row's key is
                    ambiguous: some single run holds two different rows with that key,
                    so which one survives depends on the unstable in-memory sort.
+      observation of a reuse = (((status nchunks out) ...) leftover): out = blocks or rowsout as above
       observation of a history = ((ok live) ...) after every op: ok = 1/0, live = number of
         chunk files that exist. *)
 From W.lib Require Import Tree Bytes.
@@ -295,6 +300,55 @@ Fixpoint sop_trace sort_rows run_size pk (s : sorter) (ops : list sop) : list (b
                  (ok, length (s_live s')) :: sop_trace sort_rows run_size pk s' ops'
   end.
 
+(** A sorter reused for several tables, as doctor's resolver and ingest.reingestTable do:
+    Reset(); SetColumns(header); PK = ...; AddRow...; one output; Reset(); ...
+    The configuration lives next to the run state: Reset truncates Columns (and keeps PK),
+    SetColumns appends, pkIndices() is recomputed from the CURRENT Columns at every output. *)
+Record usorter := mk_us { u_s : sorter; u_ncols : nat; u_pk : list nat }.
+Definition new_usorter : usorter := mk_us new_sorter 0 [].
+Inductive uop :=
+| UReset | USetColumns (n : nat) | USetPK (pk : list nat) | UAdd (r : row)
+| UOut (blocks : bool) (rem : list nat).      (* SortedBlocks / SortedRows, drained *)
+Inductive uout :=
+| UOAdd (ok : bool)
+| UOBlocks (nchunks : nat) (o : option (list sblock))
+| UORows (nchunks : nat) (o : option (list srows)).
+(** after an output the in-memory run is consumed and every chunk reader is at EOF *)
+Definition drained (s : sorter) : sorter :=
+  mk_sorter (map (fun _ => []) (s_chunks s)) [] (s_size s) (s_cleanups s) (s_live s) (s_nfiles s).
+Definition uop_step (sort_rows : list nat -> list row -> list row) (run_size : N)
+           (u : usorter) (o : uop) : usorter * option uout :=
+  match o with
+  | UReset => (mk_us (reset (u_s u)) 0 (u_pk u), None)
+  | USetColumns n => (mk_us (u_s u) (u_ncols u + n) (u_pk u), None)
+  | USetPK pk => (mk_us (u_s u) (u_ncols u) pk, None)
+  | UAdd r =>
+      match add_row sort_rows run_size (u_pk u) (u_s u) r with
+      | Some s' => (mk_us s' (u_ncols u) (u_pk u), Some (UOAdd true))
+      | None => (u, Some (UOAdd false))
+      end
+  | UOut true rem =>
+      (mk_us (drained (u_s u)) (u_ncols u) (u_pk u),
+       Some (UOBlocks (length (s_chunks (u_s u)))
+                      (sorted_blocks sort_rows (u_pk u) (u_ncols u) rem (u_s u))))
+  | UOut false rem =>
+      (mk_us (drained (u_s u)) (u_ncols u) (u_pk u),
+       Some (UORows (length (s_chunks (u_s u)))
+                    (sorted_rows sort_rows (u_pk u) (u_ncols u) rem (u_s u))))
+  end.
+Fixpoint uop_run sort_rows run_size (u : usorter) (ops : list uop) : usorter * list uout :=
+  match ops with
+  | [] => (u, [])
+  | o :: ops' =>
+      let '(u', r) := uop_step sort_rows run_size u o in
+      let '(u'', rs) := uop_run sort_rows run_size u' ops' in
+      (u'', match r with Some x => x :: rs | None => rs end)
+  end.
+(** one use of the sorter for one table *)
+Record suse := mk_suse { us_ncols : nat; us_pk : list nat; us_rows : list row; us_blocks : bool; us_rem : list nat }.
+Definition use_ops (x : suse) : list uop :=
+  UReset :: USetColumns (us_ncols x) :: USetPK (us_pk x) :: map UAdd (us_rows x) ++ [UOut (us_blocks x) (us_rem x)].
+
 (** The executable instance of the in-memory sort: stable insertion sort. *)
 Fixpoint insert_row (pk : list nat) (r : row) (l : list row) : list row :=
   match l with
@@ -378,8 +432,45 @@ Definition run_C19_hist (c : tree) : tree :=
   t_list (fun p : bool * nat => Node [t_bool (fst p); t_nat (snd p)])
          (sop_trace isort_rows rs pk new_sorter ops).
 
+(** kind 2: one sorter reused for several tables.  Per use the observation is
+    (status nchunks out): status 1 = an AddRow failed (the harness then skips the output). *)
+Definition d_suse (t : tree) : suse :=
+  mk_suse (d_nat (d_nth 0 t)) (d_list d_nat (d_nth 1 t)) (d_list d_row (d_nth 2 t))
+          (Nat.eqb (d_nat (d_nth 3 t)) 0) (d_list d_nat (d_nth 4 t)).
+Fixpoint run_uses (rs : N) (u : usorter) (uses : list suse) : list tree * usorter :=
+  match uses with
+  | [] => ([], u)
+  | x :: uses' =>
+      let '(u1, _) := uop_run isort_rows rs u [UReset; USetColumns (us_ncols x); USetPK (us_pk x)] in
+      let '(u2, adds) := uop_run isort_rows rs u1 (map UAdd (us_rows x)) in
+      let failed := existsb (fun o => match o with UOAdd false => true | _ => false end) adds in
+      let idx := pk_indices (u_ncols u2) (u_pk u2) in
+      let amb := concat (map (ambiguous_in_run idx) (runs_of isort_rows (u_pk u2) (u_s u2))) in
+      let cr := canon_row amb (map (shift_idx (us_rem x)) idx) in
+      let '(u3, obs) :=
+        if failed then (u2, Node [Leaf 1; Leaf 0; Node []])
+        else
+          match uop_step isort_rows rs u2 (UOut (us_blocks x) (us_rem x)) with
+          | (u3, Some (UOBlocks n (Some bs))) =>
+              (u3, Node [Leaf 0; t_nat n;
+                         t_list (fun b => Node [t_nat (b_offset b); t_row (b_pk b); t_nat (length (b_rows b));
+                                                t_list cr (b_rows b)]) bs])
+          | (u3, Some (UORows n (Some bs))) =>
+              (u3, Node [Leaf 0; t_nat n; t_list (fun b => Node [t_nat (r_offset b); t_list cr (r_rows b)]) bs])
+          | (u3, _) => (u3, Leaf 98)
+          end in
+      let '(rest, uf) := run_uses rs u3 uses' in
+      (obs :: rest, uf)
+  end.
+Definition run_C19_reuse (c : tree) : tree :=
+  let rs := d_N (d_nth 1 c) in
+  let '(obs, u) := run_uses rs new_usorter (d_list d_suse (d_nth 2 c)) in
+  Node [Node obs;
+        match close (u_s u) with None => Leaf 97 | Some s' => t_nat (length (s_live s')) end].
+
 Definition run_C19 (c : tree) : tree :=
   match d_nat (d_nth 0 c) with
   | 0%nat => run_C19_sort c
-  | _ => run_C19_hist c
+  | 1%nat => run_C19_hist c
+  | _ => run_C19_reuse c
   end.
